@@ -10,6 +10,11 @@ STR_ALPHABET = "bcxz0127-"
 SEQ_KINDS = ["list", "seq", "mseq", "tup*", "deque"]
 SET_KINDS = ["set", "mset", "fset"]
 MAP_KINDS = ["dict", "map", "mmap"]
+# mapping types whose TARGET CLASS is not dict: OrderedDict[K, V], defaultdict[K, V] (default_factory = V), Counter[K]
+# (values are ints).  Structured into that class by a Converter (gen_structure_mapping / defaultdict_structure_factory /
+# gen_structure_counter); outside a BaseConverter's support (its _structure_dict always builds a plain dict).
+TMAP_KINDS = ["odict", "ddict"]
+ALL_MAP_KINDS = MAP_KINDS + TMAP_KINDS + ["counter"]
 WRAPS = ["new", "ann", "alias"]
 FIELD_NAMES = ["a", "b", "c", "d", "e", "_p", "_q", "xy"]
 
@@ -32,7 +37,7 @@ def sub_types(t):
         return []
     if k == "tup":
         return list(t[1])
-    if k in MAP_KINDS:
+    if k in MAP_KINDS or k in TMAP_KINDS:
         return [t[1], t[2]]
     return [t[1]]
 
@@ -152,8 +157,10 @@ def supported(cfg, world, t, top=True, _seen=None, roundtrip=True) -> bool:
         k = x[0]
         if k in SET_KINDS and not hashable_prim(x[1]):
             return False
-        if k in MAP_KINDS and not hashable_prim(x[1]):
+        if k in ALL_MAP_KINDS and not hashable_prim(x[1]):
             return False
+        if k in TMAP_KINDS + ["counter"] and not cfg["gen"]:
+            return False  # BaseConverter: every mapping type is structured into a plain dict; no Counter[K] hook at all
         if k == "opt" and strip_wraps(x[1]) in ("any",):
             return False
         if not cfg["gen"]:
@@ -186,8 +193,11 @@ def supported(cfg, world, t, top=True, _seen=None, roundtrip=True) -> bool:
 
 class Gen:
     def __init__(self, rng: random.Random, max_depth=3, big=False, no_any=False, recursive=True, unions=False, nt=False,
-                 enum_lits=False, coercible=False, hierarchies=False, twin_fields=False):
+                 enum_lits=False, coercible=False, hierarchies=False, twin_fields=False, map_targets=False):
         self.rng = rng
+        # mapping types with a target class other than dict (OrderedDict[K, V], defaultdict[K, V], Counter[K]) and their
+        # values (instances of those classes); VERIF_NO_MAP_TARGETS=1 switches them off
+        self.map_targets = map_targets and not os.environ.get("VERIF_NO_MAP_TARGETS")
         # class HIERARCHIES (an attrs class / dataclass derived from an earlier class of the world: `base` = its index,
         # `fields` = the inherited attributes (marked `inherited`) followed by its own) and ordinary classes whose
         # annotations are all STRINGS (`strann`, PEP 563 style).  Invisible to the model (a class is its flat field list).
@@ -554,6 +564,22 @@ class Gen:
         if c < 0.44:
             return ("tup", [self.type(w, depth - 1, max_cls) for _ in range(r.randint(0, 3))])
         if c < 0.58:
+            if self.map_targets and r.random() < 0.4:
+                k = r.choice(TMAP_KINDS + ["counter"])
+                kt = self.type(w, depth - 1, max_cls, hashable=True)
+                if k == "counter":
+                    return ("counter", kt)
+                vt = self.type(w, depth - 1, max_cls)
+                if k == "ddict":
+                    # the value type doubles as the default_factory: `defaultdict(V)` demands a callable (a class, a
+                    # parametrised generic) -- not an Optional / Literal / alias / union
+                    for _ in range(6):
+                        if factory_type(vt):
+                            break
+                        vt = self.type(w, max(depth - 1, 0), max_cls)
+                    else:
+                        vt = r.choice(PRIMS)
+                return (k, kt, vt)
             return (r.choice(MAP_KINDS), self.type(w, depth - 1, max_cls, hashable=True), self.type(w, depth - 1, max_cls))
         if c < 0.70:
             inner = self.type(w, depth - 1, max_cls, allow_any=False)
@@ -619,13 +645,15 @@ class Gen:
             return ("F" if k == "fset" else "S", xs)
         if k == "tup":
             return ("t", [self.value(w, x, depth - 1, any_stable) for x in t[1]])
-        if k in MAP_KINDS:
+        if k in MAP_KINDS or k in TMAP_KINDS or k == "counter":
             kvs = []
             for _ in range(n):
                 kk = self.value(w, t[1], depth - 1, any_stable)
                 if not any(py_eq(kk, u) for u, _ in kvs):
-                    kvs.append((kk, self.value(w, t[2], depth - 1, any_stable)))
-            return ("d", kvs)
+                    kvs.append((kk, ("i", self.g_int()) if k == "counter" else self.value(w, t[2], depth - 1, any_stable)))
+            if k in MAP_KINDS:
+                return ("d", kvs)
+            return ("D", {"odict": "od", "ddict": "dd", "counter": "ctr"}[k], kvs)
         if k == "opt":
             return ("N",) if (r.random() < 0.3 or depth < -1) else self.value(w, t[1], depth, any_stable)
         if k in ("new", "ann", "final", "alias"):
@@ -807,6 +835,13 @@ class Gen:
         return self._edit(o, path, fn)
 
 
+def factory_type(t) -> bool:
+    """can the (realised) type serve as a defaultdict's default_factory, i.e. is it callable?"""
+    if isinstance(t, str):
+        return t in PRIMS
+    return t[0] in SEQ_KINDS + SET_KINDS + ALL_MAP_KINDS + ["tup", "enum", "cls", "nt", "td"]
+
+
 def num2(o):
     if o[0] == "b":
         return 2 if o[1] else 0
@@ -833,7 +868,7 @@ def hashable_abs(o, frozen=lambda c: False) -> bool:
         return all(hashable_abs(x, frozen) for x in o[1])
     if t == "F":
         return True
-    if t in ("l", "q", "S", "d"):
+    if t in ("l", "q", "S", "d", "D"):
         return False
     if t == "I":
         return frozen(o[1]) and all(hashable_abs(v, frozen) for _, v in o[2])
@@ -854,6 +889,8 @@ def lookalike_hazard(o, keyed=False) -> bool:
         return any(lookalike_hazard(x, True) for x in o[1])
     if t == "d":
         return any(lookalike_hazard(k, True) or lookalike_hazard(v, False) for k, v in o[1])
+    if t == "D":
+        return any(lookalike_hazard(k, True) or lookalike_hazard(v, False) for k, v in o[2])
     if t == "I":
         return any(lookalike_hazard(v, False) for _, v in o[2])
     return False
